@@ -525,18 +525,29 @@ func (st *State) loadSym(p Ptr, t types.Type) Value {
 	}
 	o := st.deref(p)
 	ks := st.symOffsets(p)
-	var res *Term
-	for i := len(ks) - 1; i >= 0; i-- {
+	vals := make([]*Term, len(ks))
+	for i := range ks {
 		v := st.loadLeaf(o, p.Off+ks[i], ls[0])
 		tv, ok := v.(*Term)
 		if !ok {
 			panic(cutErr{"opaque cell under symbolic index"})
 		}
-		if res == nil {
-			res = tv
-		} else {
-			res = Ite(Eq(p.Sym, Const(64, uint64(ks[i]))), tv, res)
+		vals[i] = tv
+	}
+	return iteRuns(p.Sym, ks, vals)
+}
+
+// iteRuns builds the value selected by sym over offsets ks (ascending), merging runs of
+// identical values into range tests (tables such as utf8.first have a dozen runs).
+func iteRuns(sym *Term, ks []int64, vals []*Term) *Term {
+	n := len(ks)
+	res := vals[n-1]
+	for i := n - 2; i >= 0; i-- {
+		if vals[i] == vals[i+1] {
+			continue
 		}
+		// run ending at i: sym < ks[i+1] selects vals[i] (earlier, different runs are tested first)
+		res = Ite(Ult(sym, Const(sym.W, uint64(ks[i+1]))), vals[i], res)
 	}
 	return res
 }
